@@ -3,6 +3,7 @@ pub mod explore;
 pub mod jsonwalk;
 pub mod panics;
 pub mod report;
+pub mod watch;
 
 use num_bigint::BigUint;
 use num_traits::{One, Zero};
